@@ -236,6 +236,43 @@ func (e *Engine) builtin(st *State, fr *Frame, b *ssa.Builtin, call *ssa.Call, a
 			return nil
 		}
 		panic(unsupported("clear of non-map"))
+	case "String":
+		// unsafe.String(ptr, len)
+		p := args[0].(PtrV)
+		n := argInt(args[1])
+		if n == 0 {
+			return StrV{}
+		}
+		if p.Obj == 0 || len(p.Path) == 0 || p.Path[len(p.Path)-1].Sym != nil {
+			panic(unsupported("unsafe.String of this pointer"))
+		}
+		last := p.Path[len(p.Path)-1].I
+		arr := loadArr(st.obj(p.Obj).V, p.Path[:len(p.Path)-1])
+		if last+n > len(arr.E) {
+			panic(unsupported("unsafe.String beyond the object"))
+		}
+		b := make([]*Term, n)
+		for i := 0; i < n; i++ {
+			b[i] = arr.E[last+i].(*Term)
+		}
+		return StrV{b}
+	case "SliceData":
+		s := args[0].(SliceV)
+		if s.Obj == 0 || s.Cap == 0 {
+			return PtrV{}
+		}
+		return PtrV{Obj: s.Obj, Path: extPath(s.Path, PathElem{I: s.Off})}
+	case "StringData":
+		s := args[0].(StrV)
+		if len(s.B) == 0 {
+			return PtrV{}
+		}
+		sl := e.newSlice(st, types.Typ[types.Uint8], len(s.B), len(s.B))
+		arr := st.sliceArrW(sl)
+		for i, t := range s.B {
+			arr.E[i] = t
+		}
+		return PtrV{Obj: sl.Obj, Path: []PathElem{{I: 0}}}
 	case "ssa:wrapnilchk":
 		p := args[0].(PtrV)
 		if p.Obj == 0 {
